@@ -1257,4 +1257,40 @@ def voterOf (k : Kind) (w c : Rat) : Voter := ⟨k, .num c, w, 1⟩
 theorem voterOf_valid {k : Kind} {w c : Rat} (hw : 0 ≤ w) (hc : 0 ≤ c) : (voterOf k w c).Valid :=
   ⟨hw, by show (0 : Rat) ≤ 1; decide +kernel, by intro c' h; cases h; exact hc⟩
 
+/-! ## Part 12 — the un-stubbed colony (real `BioAgent` voters) -/
+
+theorem bioVoters_length (p : PromptClass) (budget n : Nat) : (bioVoters p budget n).length = n := by
+  induction n generalizing budget with
+  | zero => simp [bioVoters]
+  | succ n ih => cases p <;> simp only [bioVoters] <;> (try split_ifs) <;> simp [ih]
+
+theorem bioVoters_no_permit (p : PromptClass) (hp : p ≠ .safe) (budget n : Nat) :
+    ∀ v ∈ bioVoters p budget n, (toVote v).kind ≠ .permit := by
+  induction n generalizing budget with
+  | zero => simp [bioVoters]
+  | succ n ih =>
+    cases p
+    · exact absurd rfl hp
+    · simp only [bioVoters]
+      split_ifs <;> intro v hv <;> rcases List.mem_cons.mp hv with rfl | hv
+      · decide
+      · exact ih _ v hv
+      · decide
+      · exact ih _ v hv
+    · simp only [bioVoters]
+      intro v hv; rcases List.mem_cons.mp hv with rfl | hv
+      · decide
+      · exact ih _ v hv
+
+theorem bioVoters_safe_funded (budget n : Nat) (h : 10 * n ≤ budget) :
+    ∀ v ∈ bioVoters .safe budget n, v = bioVoter .permit := by
+  induction n generalizing budget with
+  | zero => simp [bioVoters]
+  | succ n ih =>
+    have h10 : 10 ≤ budget := by omega
+    simp only [bioVoters, h10, if_true]
+    intro v hv; rcases List.mem_cons.mp hv with rfl | hv
+    · rfl
+    · exact ih (budget - 10) (by omega) v hv
+
 end Operon.Quorum
